@@ -80,7 +80,7 @@ type KV struct {
 // Case is one member of the grammar; it is also the replay object.
 type Case struct {
 	Engine    string `json:"engine"`    // always "E2"
-	Transport string `json:"transport"` // inproc | http-rec | http-wire | http-net | grpc-go (reference only)
+	Transport string `json:"transport"` // inproc | http-rec | http-wire | http-net | http-gate | grpc-go (reference only)
 	Kind      string `json:"kind"`      // U | CS | SS | BD
 	Fail      bool   `json:"fail"`      // handler returns a NotFound status error
 	NResp     int    `json:"nresp"`     // SS/BD: response messages sent before returning (0|1)
@@ -101,7 +101,9 @@ const (
 )
 
 var allKinds = []string{"U", "CS", "SS", "BD"}
-var libTransports = []string{"inproc", "http-rec", "http-wire", "http-net"}
+
+// http-gate (streams only): the recorder transport with the end of the response body held back, see gateRT
+var libTransports = []string{"inproc", "http-rec", "http-wire", "http-net", "http-gate"}
 
 const refTransport = "grpc-go"
 
@@ -160,6 +162,9 @@ func (c Case) clone() Case {
 // valid says whether the combination of parameters is a member of the grammar
 // (some modes only exist for some kinds).
 func (c Case) valid() bool {
+	if c.Transport == "http-gate" && c.Kind == "U" {
+		return false // a unary call needs the whole body for its response message
+	}
 	if c.Kind == "U" {
 		// unary handlers only have the context API, no response messages, no Header()
 		if strings.HasPrefix(c.HdrMode, "ctx:") || c.TrlMode == "ctx" || c.TrlMode == "late" {
@@ -405,12 +410,11 @@ func expand(u unit, transports []string, f func(Case)) {
 					for opts := 0; opts <= 2; opts++ {
 						c := Case{Engine: "E2", Kind: kind, Fail: fail, NResp: nresp, HdrFirst: hdrFirst, Opts: opts,
 							Req: u.Req, Hdr: u.Hdr, Trl: u.Trl, ReqMode: u.ReqMode, HdrMode: u.HdrMode, TrlMode: u.TrlMode}
-						if !c.valid() {
-							continue
-						}
 						for _, t := range transports {
 							c.Transport = t
-							f(c)
+							if c.valid() {
+								f(c)
+							}
 						}
 					}
 				}
